@@ -7,7 +7,7 @@ from mgverif.prog import Interp
 from mgverif.oracle import Shadow, FD
 from mgverif.gradcheck import check_grads
 from mgverif import mgrun
-from mgverif.gen.inplace import gen_history, add_readout
+from mgverif.gen.inplace import gen_history, add_readout, grow, epoch_boundary
 
 PID = "C05"
 LEVEL = "exploration"
@@ -17,12 +17,18 @@ RULE = ("seeded random histories over non-constant float view families (base = l
         "of several members/consumers and L.backward(). Every float non-constant tensor alive at the end (leaves, value tensors, family "
         "members, consumers) is judged against longdouble finite differences of the NumPy program: the perturbation is injected into "
         "the owner's memory at the elements the tensor covers, right after the family's last in-place statement. Non-trivial: >=1 in-place "
-        "statement upstream of L and >=3 judged directions; distinct = structure hash.")
+        "statement upstream of L and >=3 judged directions; distinct = structure hash. Every third history continues past the backward for "
+        "one or two further graph epochs: from each memory family one tensor of the cleared graph survives (its gradient nulled or "
+        "left stale), the others are hidden or deleted; new views of the survivors (former views included), in-place writes through them "
+        "and reads follow, then a new read-out and backward(); values of the tensors the epoch uses are compared with NumPy (survivor = "
+        "its own memory) and their gradients with finite differences injected after max(epoch boundary, last in-place statement).")
 ASSUMPTIONS = ["NumPy's in-place semantics on the same statements define 'the equivalent purely functional program'",
-               "constant tensors are never in-place targets here (their flag semantics are C10's)", "kinks / ill-conditioned directions skipped and counted"]
+               "constant tensors are never in-place targets here (their flag semantics are C10's)", "kinks / ill-conditioned directions skipped and counted",
+               "across an epoch boundary MyGrad severs view relations (in-place updates act on a copy of the target's memory); tensors of an earlier "
+               "epoch that the new epoch does not use are not observed, and a non-nulled survivor on which the new read-out does not depend may keep its stale gradient"]
 TIERS = {"quick": {"cases": 8000, "nstmts": (3, 10)}, "thorough": {"cases": 150000, "nstmts": (4, 24)}}
-FLOORS = {"quick": {"fd_ok": 15000, "inplace_stmts": 3000},
-          "thorough": {"fd_ok": 75000, "inplace_stmts": 15000}}
+FLOORS = {"quick": {"fd_ok": 15000, "inplace_stmts": 3000, "epoch2_fd_ok": 4000, "epoch2_inplace_stmts": 800},
+          "thorough": {"fd_ok": 75000, "inplace_stmts": 15000, "epoch2_fd_ok": 20000, "epoch2_inplace_stmts": 4000}}
 SKIP_BUDGET = {"fd": ("fd_skipped", "fd_dirs", 0.15)}
 TAU = 1e-8
 
@@ -35,36 +41,90 @@ def gen_case(rng, cfg, idx):
             continue
         seed = None if rng.random() < 0.7 else round(rng.uniform(0.5, 2.0), 3)
         b.prog.append({"k": "backward", "tgt": L, "seed": seed})
-        return {"prog": b.prog, "L": L, "cseed": rng.randrange(1 << 30)}
+        case = {"prog": b.prog, "L": L, "cseed": rng.randrange(1 << 30), "bws": [len(b.prog) - 1]}
+        if idx % 3 == 2 and cfg.get("two_epoch", True):
+            # a second graph epoch: tensors of the graph that backward() just cleared are used again (new views of former views,
+            # in-place writes through them, reads) and a second read-out is back-propagated
+            for _ in range(rng.choice([1, 1, 2])):
+                r = epoch_boundary(b, rng, getattr(b, "last_readout", ()))
+                if r is None:
+                    break
+                survivors, nulled = r
+                lo, hi = cfg["nstmts"]
+                n2 = grow(b, rng, survivors[0], rng.randint(max(2, lo // 2), max(3, hi // 2)), setshape_w=0.3, nonconst_only=True)
+                L2 = add_readout(b, rng)
+                if L2 is None:
+                    break
+                b.prog.append({"k": "backward", "tgt": L2, "seed": None if rng.random() < 0.7 else round(rng.uniform(0.5, 2.0), 3)})
+                case["bws"].append(len(b.prog) - 1)
+            case["prog"] = b.prog
+        return case
     return None
 
 
 def run_case(case):
     prog = case["prog"]
-    bw = len(prog) - 1
+    bws = case.get("bws") or [len(prog) - 1]
     rng = random.Random(case.get("cseed", 0))
     REG.reset()
     it = Interp("mg")
-    try:
-        it.run(prog, catch=False)
-    except Exception as e:
-        return {"viol": [{"monitor": "mg-raised", "mech": f"mg-raises:{type(e).__name__}", "msg": f"{type(e).__name__}: {e}"}]}
-    grads = mgrun.snapshot_grads(it.env)
-    M = REG.max_abs_grad
-    sh = Shadow(prog).run_all()
-    if sh.raised:
-        return {"viol": [{"monitor": "harness", "mech": "shadow-raised", "msg": repr(sh.raised)}]}
+    sh = Shadow(prog)
     cnt, viol, sets = {}, [], {}
-    for n, v in it.env.items():
-        if mgrun.is_tensor(v) and n in sh.it.env and not mgrun.values_close(v.data, sh.it.env[n], 1e-9, 1e-12):
-            return {"viol": [], "counters": {"cross_forward_mismatch": 1}, "skip": "forward-mismatch (judged by C04)"}
-    names = [n for n, v in it.env.items() if mgrun.is_tensor(v) and not v.constant and v.dtype.kind == "f" and n in sh.owner
-             and not n.startswith(("m", "s", "L"))]
-    viol, cnt = check_grads(prog, (), sh, grads, bw, names, rng, tau=TAU, M=M, full_upto=3, nrand=1)
+    start = 0
+    for ep, bw in enumerate(bws):
+        try:
+            for i in range(start, bw + 1):
+                it.exec(i, prog[i])
+        except Exception as e:
+            return {"viol": [{"monitor": "mg-raised", "mech": f"mg-raises:{type(e).__name__}", "msg": f"stmt {i} (epoch {ep}): {type(e).__name__}: {e}"}]}
+        used = set()
+        for st in prog[start:bw + 1]:
+            used.update(mgrun.stmt_refs(st))
+            if "out" in st:
+                used.add(st["out"])
+        # (in later epochs only tensors the epoch uses are observed: what a view left over from an earlier epoch reports is outside the model)
+        grads = mgrun.snapshot_grads({n: v for n, v in it.env.items() if ep == 0 or n in used})
+        M = REG.max_abs_grad
+        while sh.pos <= bw:
+            sh.step()
+        if sh.raised:
+            return {"viol": [{"monitor": "harness", "mech": "shadow-raised", "msg": repr(sh.raised)}]}
+        for n, v in it.env.items():
+            # (tensors of an earlier epoch that the current one does not use are not compared: whether they still see writes made
+            # through a former relative is exactly what the model leaves open)
+            if mgrun.is_tensor(v) and n in sh.it.env and (ep == 0 or n in used) and not mgrun.values_close(v.data, sh.it.env[n], 1e-9, 1e-12):
+                if ep == 0:
+                    return {"viol": [], "counters": {"cross_forward_mismatch": 1}, "skip": "forward-mismatch (judged by C04)"}
+                return {"viol": [{"monitor": "O-np", "mech": "epoch2-forward-mismatch",
+                                 "msg": f"after the backward at stmt {bw} (epoch {ep}) tensor {n} holds values that differ from the NumPy program's"}]}
+        names = [n for n, v in it.env.items() if mgrun.is_tensor(v) and not v.constant and v.dtype.kind == "f" and n in sh.owner
+                 and not n.startswith(("m", "s", "L")) and (ep == 0 or n in used)]
+        stale_ok = ()
+        if ep > 0:
+            # survivors whose gradient was not nulled at the boundary (and views made of them) keep that stale gradient unless the new
+            # epoch's backward() reaches them
+            sev = [st for st in prog[start:bw + 1] if st["k"] == "sever"]
+            nulled = {st["tgt"] for st in prog[start:bw + 1] if st["k"] == "nullgrad"}
+            keepers = {n for st in sev for n in st["names"]} - nulled
+            stale_ok = {n for n in names if sh.owner.get(n) in keepers}
+            cnt["epoch2_judged_tensors"] = cnt.get("epoch2_judged_tensors", 0) + len(names)
+            cnt["epoch2_inplace_stmts"] = cnt.get("epoch2_inplace_stmts", 0) + sum(1 for st in prog[start:bw + 1] if st["k"] in ("setitem", "aug", "uout"))
+        v1, c1 = check_grads(prog, (), sh, grads, bw, names, rng, tau=TAU, M=M, full_upto=3, nrand=1, stale_ok=stale_ok)
+        for k, x in c1.items():
+            cnt[k] = cnt.get(k, 0) + x
+        if ep > 0:
+            cnt["epoch2_fd_ok"] = cnt.get("epoch2_fd_ok", 0) + c1.get("fd_ok", 0)
+            for x in v1:
+                x["mech"] = "epoch2:" + x.get("mech", x["msg"][:20])
+        viol += v1
+        if viol:
+            break
+        start = bw + 1
     cnt["fd_skipped"] = cnt.get("fd_kink", 0) + cnt.get("fd_illcond", 0)
     kinds = [st["k"] + ":" + str(st.get("fn") or st.get("op") or "") for st in prog if st["k"] in ("setitem", "aug", "uout", "setshape")]
     cnt["inplace_stmts"] = sum(1 for st in prog if st["k"] in ("setitem", "aug", "uout"))
     cnt["placeholders"] = len(REG.placeholders)
+    cnt["epochs"] = len(bws)
     sets["inplace_kinds"] = sorted(set(kinds))
     sets["opclasses"] = sorted(REG.opclasses)
     return {"viol": viol[:4], "counters": cnt, "sets": sets, "sig": mgrun.struct_sig(prog),
